@@ -81,6 +81,16 @@ pub fn special_f64(t: &mut Tape) -> f64 {
             -1e300,
             f64::MAX,
             f64::MIN,
+            // values that have a meaning somewhere inside the library (no-data marker, log-F0 limits,
+            // default alpha, half-tone unit): as setter arguments they are ordinary numbers
+            -1.0e10,
+            1.0e10,
+            2.995_732_273_553_991,
+            9.903_487_552_536_127,
+            0.42,
+            0.057_762_265_046_662_11,
+            24.0,
+            -24.0,
         ]),
         2 => t.uniform(-1.5, 2.5),
         3 => {
